@@ -17,6 +17,11 @@ def build(t):
     from pypika_tortoise.terms import Function, Negative, Not, NullCriterion, ValueWrapper
 
     k = t["k"]
+    if k == "fld" and t["n"] == SUBQ:
+        # a scalar subquery as an operand: its rendering is ( SELECT ... ), which collapse_subqueries turns back into the one identifier SUBQ_OK
+        from pypika_tortoise import Query, Table
+        from pypika_tortoise import functions as fn
+        return Query.from_(Table("sqt")).select(fn.Max(Field("x")))
     if k == "fld":
         return Field(t["n"])
     if k == "num":
@@ -46,6 +51,54 @@ def build(t):
     if k == "case":
         return Case().when(build(t["w"]), build(t["t"])).else_(build(t["e"]))
     raise core.MachineryError(f"unknown tree kind {k}")
+
+
+SUBQ = "SUBQ_OK"
+
+
+def collapse_subqueries(toks):
+    """( SELECT ... ) becomes the single identifier SUBQ_OK (the operand as one bracketed unit); a SELECT that is NOT directly inside its own
+    brackets becomes SUBQ_BARE followed by what it swallowed - a different leaf, so the tree no longer parses back"""
+    out, i, n = [], 0, len(toks)
+    while i < n:
+        t = toks[i]
+        if t["t"] == "punct" and t["v"] == "(" and i + 1 < n and toks[i + 1]["t"] == "word" and toks[i + 1]["v"] == "SELECT":
+            depth, j = 0, i
+            while j < n:
+                if toks[j]["t"] == "punct" and toks[j]["v"] == "(":
+                    depth += 1
+                elif toks[j]["t"] == "punct" and toks[j]["v"] == ")":
+                    depth -= 1
+                    if depth == 0:
+                        break
+                j += 1
+            out.append({"t": "id", "v": SUBQ, "q": '"'})
+            i = j + 1
+            continue
+        if t["t"] == "word" and t["v"] == "SELECT":
+            out.append({"t": "id", "v": "SUBQ_BARE", "q": '"'})
+            i += 1
+            continue
+        out.append(t)
+        i += 1
+    return out
+
+
+def subquery_operands():
+    """a scalar subquery as the RIGHT operand of every arithmetic / comparison operator, alone and beside a compound left operand, under unary
+    minus, as a function argument (a query on the left of + - * is a set operation by the builder's operator overloads)"""
+    def F(n):
+        return {"k": "fld", "n": n}
+
+    def B(op, l, r):
+        return {"k": "bin", "op": op, "l": l, "r": r}
+    out = []
+    for op in ("+", "-", "*", "/", "=", "<", ">="):
+        out += [B(op, F("a"), F(SUBQ)), B(op, B("+", F("a"), F("b")), F(SUBQ)), B(op, B("*", F("a"), F("b")), F(SUBQ))]
+    out += [B("+", B("*", F("a"), F(SUBQ)), F("c")), B("-", F("c"), B("*", F("a"), F(SUBQ))), B("AND", B("=", F("a"), F(SUBQ)), B("=", F("b"), {"k": "num", "n": "1"})),
+            {"k": "call", "f": "FN", "args": [F(SUBQ), F("a")]}, {"k": "between", "a": F("a"), "lo": F(SUBQ), "hi": {"k": "num", "n": "5"}},
+            {"k": "in", "a": F("a"), "items": [F(SUBQ), {"k": "num", "n": "2"}]}]
+    return out
 
 
 def operator_functions():
@@ -108,7 +161,7 @@ def observe(trees):
                 text = term.get_sql(ctx)
             except Exception as ex:  # noqa
                 raise core.MachineryError(f"render failed for {t}: {ex!r}")
-            toks = lexer.slim(lexer.lex(text, core.lex_dialect(d)))
+            toks = lexer.slim(collapse_subqueries(lexer.lex(text, core.lex_dialect(d))))
             key = json.dumps(toks)
             if key in seen:
                 seen[key]["ctxs"].append(d)
@@ -169,7 +222,7 @@ def clause_positions(trees, events0, tier):
             except Exception:  # noqa  (a position that does not accept this kind of term)
                 continue
             try:
-                toks = lexer.slim(span(lexer.lex(text, "sqlite")))
+                toks = lexer.slim(collapse_subqueries(span(lexer.lex(text, "sqlite"))))
             except StopIteration:
                 continue  # (the text is cut by a comment: the bare-term rendering of this tree already reports it)
             out.append({"tid": events0 + len(out), "tree": tr, "toks": toks, "ctxs": ["generic"], "text": text, "site": "at:" + sname})
@@ -261,6 +314,7 @@ def run(tier: str) -> int:
     trees += [t for t in grown if json.dumps(t, sort_keys=True) not in have]
     rep.extra["grown_trees"] = len(grown)
     trees += operator_functions()
+    trees += subquery_operands()
     events = observe(trees)
     events += containers(len(events))
     events += clause_positions(trees, len(events), tier)
@@ -275,6 +329,27 @@ def run(tier: str) -> int:
             # alternatives: the edges where the intended design needs a bracket; a tree that fails
             # without any such edge lost or regrouped something else (signature: its root)
             sigs = sorted(list(x) for x in v["edges"]) or [["unbracketed-tree", e["tree"]["k"], e["tree"].get("op", "")]]
+            if SUBQ in json.dumps(e["tree"]):
+                # (one precise signature: the operator the subquery is an operand of, and whether the term stood alone or in a statement)
+                def parent_of(t):
+                    for key in ("l", "r", "a", "lo", "hi", "w", "t", "e"):
+                        c = t.get(key)
+                        if isinstance(c, dict):
+                            if c.get("n") == SUBQ:
+                                return t["k"] + (t.get("op") or ""), key
+                            r = parent_of(c)
+                            if r:
+                                return r
+                    for key in ("args", "items"):
+                        for c in t.get(key, []):
+                            if c.get("n") == SUBQ:
+                                return t["k"] + (t.get("f") or ""), key
+                            r = parent_of(c)
+                            if r:
+                                return r
+                    return None
+                po = parent_of(e["tree"]) or ("?", "?")
+                sigs = [["subquery-operand", po[0], po[1], "in-statement" if e.get("site", "").startswith("at:") else "stand-alone"]]
             if e.get("site", "").startswith("at:"):
                 sigs = sigs + [["at-position", e["site"][3:], e["tree"]["k"], e["tree"].get("op", "")]]
             elif e.get("site"):
